@@ -140,6 +140,28 @@ Theorem C14_interact_table : forall it d, dist_sample it d = spec_sample it d.
 Proof. exact interact_table. Qed.
 Print Assumptions C14_interact_table.
 
+(* ---- wrapped distributions (torch.distributions.Independent, TransformedDistribution-style classes): full statement *)
+Definition C14_interact_table_wrapped_full_statement : Prop :=
+  forall it ls b, dist_sample_w it ls b = spec_sample_w it ls b.
+(* false with two nested Independent layers: _dist_sample removes ONE layer, then finds D.Independent's own register entry,
+   MODE (finding D14A) *)
+Theorem C14_interact_table_wrapped_refuted_nested : exists it ls b, dist_sample_w it ls b <> spec_sample_w it ls b.
+Proof. exact interact_table_wrapped_refuted_nested. Qed.
+Print Assumptions C14_interact_table_wrapped_refuted_nested.
+(* proved for every stack of wrappers with at most one Independent layer on top, every base, every interaction type:
+   the decision is the documented table for the registration of the UNWRAPPED base class *)
+Theorem C14_interact_table_wrapped_partial : forall it ls b, one_step ls = true -> dist_sample_w it ls b = spec_sample_w it ls b.
+Proof. exact interact_table_wrapped. Qed.
+Print Assumptions C14_interact_table_wrapped_partial.
+Theorem C14_interact_wrapped_reg_only : forall it b,
+  dist_sample_w it [LIndep] b = dist_sample it (with_reg (reg b) (caps [LIndep] b)).
+Proof. exact interact_wrapped_reg_only. Qed.
+Print Assumptions C14_interact_wrapped_reg_only.
+Example C14_ex_lookup_unwrapped_needed : dist_sample_w_gen false TDeterministic [LIndep] lognormal_like = AMode
+  /\ dist_sample_w TDeterministic [LIndep] lognormal_like = AMean
+  /\ spec_sample_w TDeterministic [LIndep] lognormal_like = AMean.
+Proof. exact interact_lookup_unwrapped_needed. Qed.
+
 (* ---- a probabilistic sequence samples iff some sample key of its final module is not produced by the modules before it
    (ProbabilisticTensorDictSequential._requires_sample; compared with the real attribute on every generated sequence) *)
 Theorem C14_requires_sample : forall ks up,
